@@ -13,7 +13,8 @@
 (***************************************************************************)
 EXTENDS RigoCore, RigoMon
 
-CONSTANTS MaxBlocks, MaxTxs,
+CONSTANTS Rank,          \* [name -> Nat]: byte order of the addresses
+          MaxBlocks, MaxTxs,
           Accts,         \* account names with their genesis balance in units of 10^18: [name -> Nat]
           GenVals,       \* genesis validators: [name -> power]
           Menu,          \* which transaction kinds the menu offers (subset of the type names)
@@ -41,12 +42,12 @@ GenesisState ==
       accts |-> [a \in DOMAIN Accts |-> [bal |-> BAdd(PowerAmount(Accts[a]), <<500>>), nonce |-> 0, code |-> 0, name |-> "", url |-> ""]],
       delegs |-> delegs, frozen |-> <<>>, rewards |-> [x \in {} |-> 0], props |-> [x \in {} |-> 0], fprops |-> [x \in {} |-> 0],
       gov |-> Gov0, prevGov |-> Gov0, govLedger |-> [some |-> TRUE, v |-> Gov0], govPending |-> [some |-> FALSE],
-      vol |-> [lastVals |-> <<>>, allDelegs |-> [x \in {} |-> 0], limiter |-> [on |-> FALSE], rwdHash |-> "r", evmRoot |-> "r", evmHeight |-> 0],
+      vol |-> [lastVals |-> <<>>, allDelegs |-> [x \in {} |-> 0], limiter |-> NoLimiter, rwdHash |-> "r", evmRoot |-> "r", evmHeight |-> 0],
       tree |-> [delegs |-> [x \in {} |-> 0], frozen |-> <<>>, props |-> [x \in {} |-> 0], fprops |-> [x \in {} |-> 0]],
-      hist |-> [x \in {} |-> 0], docs |-> [x \in {} |-> 0], delivered |-> {}, proposer |-> "none"]
+      hist |-> [x \in {} |-> 0], docs |-> [x \in {} |-> 0], delivered |-> {}, proposer |-> "none", rank |-> Rank]
 
 GenesisEvent == [ev |-> "Genesis", post |-> GenesisState, apphash |-> "h",
-                 validators |-> LET order == AscSeq(DOMAIN GenVals) IN [i \in 1..Len(order) |-> [v |-> order[i], pow |-> GenVals[order[i]]]]]
+                 validators |-> LET order == AscSeq(Rank, DOMAIN GenVals) IN [i \in 1..Len(order) |-> [v |-> order[i], pow |-> GenVals[order[i]]]]]
 
 Live(st) == [a \in LiveAccts(st) |-> st.accts[a]]
 Committed(st) ==
@@ -55,7 +56,7 @@ Committed(st) ==
 
 \* n empty blocks (everybody signs, first validator proposes) executed functionally from the genesis
 EmptyHeader(H) ==
-  LET order == AscSeq(DOMAIN GenVals) IN
+  LET order == AscSeq(Rank, DOMAIN GenVals) IN
   [h |-> H, proposer |-> order[1], evidence |-> <<>>,
    votes |-> IF H >= 2 THEN [i \in 1..Len(order) |-> [v |-> order[i], pow |-> GenVals[order[i]], signed |-> TRUE]] ELSE <<>>]
 
@@ -95,7 +96,7 @@ Headers(H) ==
                  ELSE {<<>>}
       props == (IF DOMAIN vals.cur = {} THEN {} ELSE {CHOOSE v \in DOMAIN vals.cur : \A w \in DOMAIN vals.cur : Rank[v] <= Rank[w]})
                \cup (IF AllowNoProposer THEN {"none"} ELSE {})
-      order == AscSeq(DOMAIN prev)
+      order == AscSeq(Rank, DOMAIN prev)
   IN {[h |-> H, proposer |-> p, evidence |-> ev,
        votes |-> IF H >= 2 THEN [i \in 1..Len(order) |-> [v |-> order[i], pow |-> prev[order[i]], signed |-> order[i] \notin A]] ELSE <<>>]
         : p \in props, ev \in evids, A \in absents}
@@ -107,7 +108,7 @@ ApplyUps(vs, ups) == Fold(vs, ups)
 
 BaseTx(type, from, to, amount, payload) ==
   [type |-> type, hash |-> "t" \o ToString(ctr), from |-> from, to |-> to, amount |-> amount, nonce |-> Nonce(s, from),
-   gas |-> <<3>>, gasPrice |-> s.gov.gasPrice, auth |-> "valid", payload |-> payload]
+   gas |-> <<3>>, gasPrice |-> s.gov.gasPrice, auth |-> "valid", payload |-> payload, fromLen |-> 20, toLen |-> 20]
 
 NoPayload == [kind |-> "none"]
 Senders == SenderSet
